@@ -1,0 +1,40 @@
+//go:build verif
+
+package banderwagon
+
+import (
+	"github.com/crate-crypto/go-ipa/bandersnatch"
+	"github.com/crate-crypto/go-ipa/bandersnatch/fp"
+)
+
+// Verification hooks (build tag verif): read-only access to internal representations.
+
+// VerifCoords returns the raw projective coordinates of e.
+func VerifCoords(e *Element) (x, y, z fp.Element) {
+	return e.inner.X, e.inner.Y, e.inner.Z
+}
+
+// VerifFromCoords builds an element from raw projective coordinates (no validation).
+func VerifFromCoords(x, y, z fp.Element) Element {
+	return Element{inner: bandersnatch.PointProj{X: x, Y: y, Z: z}}
+}
+
+// VerifPrecompDims returns the window size and table dimensions of basis point i.
+func VerifPrecompDims(msm *MSMPrecomp, i int) (windowSize, windows, entries int) {
+	pp := &msm.precompPoints[i]
+	return pp.windowSize, len(pp.windows), len(pp.windows[0])
+}
+
+// VerifPrecompEntry returns table entry windows[w][j] of basis point i.
+func VerifPrecompEntry(msm *MSMPrecomp, i, w, j int) (x, y, t fp.Element) {
+	e := &msm.precompPoints[i].windows[w][j]
+	return e.X, e.Y, e.T
+}
+
+// VerifBatchProjToAffine exposes batchProjToAffine.
+func VerifBatchProjToAffine(points []bandersnatch.PointProj) []bandersnatch.PointAffine {
+	return batchProjToAffine(points)
+}
+
+// VerifSubgroupCheck exposes subgroupCheck.
+func VerifSubgroupCheck(x fp.Element) error { return subgroupCheck(x) }
